@@ -8,8 +8,8 @@
     [compiles lines ss]    the lines are valid UTF-8, the lexical specification ([lines_tokens first_class],
                            Lex/LexSpec.v, Props/C10.v) gives the tokens [toks], and the reference parser
                            (Parse/RefParser.v, Props/C09.v) accepts [toks ++ EOF] with the statements [ss];
-    [reads_prefix lines ss] some first k lines lex to tokens of which every continuation the reference
-                           parser accepts begins with the statements [ss];
+    [reads_prefix lines ss] some first k lines lex to tokens that can be continued to a sentence, and every
+                           continuation the reference parser accepts begins with the statements [ss];
     [front], [finish]      the front end of process_lines on its own (the statements it hands over, how it
                            ends) and the CLI's report;
     [exprs_of ss]          the expressions of the expression statements of [ss], in order;
@@ -66,12 +66,14 @@ Theorem C01b_process_file_ok : forall functions classes modules exec src p',
 Proof. exact process_file_ok. Qed.
 
 (** failure, any library: the statements [done] were executed -- the first statements of what the text
-    prescribes -- and the output is theirs: the failing statement, if it is a statement that failed,
-    wrote nothing *)
+    prescribes -- and the output is theirs.  Either the front end stopped (a line that is not UTF-8: I/O
+    error without location; a lex error; a parse error) and the state is exactly theirs, or the next
+    statement failed, having written nothing *)
 Theorem C01b_process_file_err : forall functions classes modules exec src e l p',
   process_file functions classes modules exec src = CliErr e l p' ->
   exists done p0, add_stmts functions classes modules exec prog_init done = ROk tt p0 /\ p_out p' = p_out p0
-    /\ ( (reads_prefix (split_lines src) done /\ p' = p0)
+    /\ ( (reads_prefix (split_lines src) done /\ p' = p0
+          /\ ((e = EIo /\ l = nil_loc) \/ e = ELex \/ e = EParse))
          \/ (exists s rest, add_stmt functions classes modules exec p0 s = RErr e p' /\ l = p_loc p'
                /\ (compiles (split_lines src) (done ++ s :: rest) \/ reads_prefix (split_lines src) (done ++ s :: rest)))).
 Proof. exact process_file_err. Qed.
